@@ -298,3 +298,108 @@ def g_c07(d: Draw) -> dict:
 
 reg(Prop("C07", g_c07, {"cprio_table": "C07.a", "order_mc1": "C07.d", "raise": "C07.a"}, nontrivial="multi", n_sched=2,
          quick=1200, thorough=30000, hashseeds=["0", "1", "2", "3"]))
+
+
+# ----------------------------------------------------------------------------- selection / debug / setup family
+P_C12 = gen.profile(**{**gen.GRAPH, "p_setup": 0.12, "p_debug": 0.08, "n_stmts": (2, 12)})
+P_C13 = gen.profile(**{**gen.GRAPH, "p_debug": 0.35, "p_setup": 0.08, "n_stmts": (2, 10)})
+P_C11 = gen.profile(**{**gen.GRAPH, "p_setup": 0.4, "n_stmts": (2, 9), "p_tag": 0.15})
+
+
+def g_c12(d: Draw) -> dict:
+    spec = gen.gen_program(d, P_C12)
+    dg = spec["dags"]["main"]
+    ops: List[dict] = []
+    if dg["has_setup"] and d.bool(0.4):
+        ops.append(dict(op="setup", inst="E:main"))
+    n = d.count(1, 3, 0.5)
+    for j in range(n):
+        sel = draw_selection(d, spec, "main", p_R=0.4, p_X=0.45, p_T=0.65, p_invalid=0.12, p_tag=0.3)
+        ops.append(dict(op="executor", inst="E:main", sel=sel, ex=f"e{j}"))
+        ops.append(dict(op="exrun", ex=f"e{j}", args=draw_args(d, dg)))
+    return base_scn(spec, ops, debug_on=False)
+
+
+def g_c13(d: Draw) -> dict:
+    spec = gen.gen_program(d, P_C13)
+    dg = spec["dags"]["main"]
+    debug_on = d.bool(0.5)
+    if d.bool(0.08):
+        # build-time rejection: a non-debug node consuming a debug node's result
+        dbg = [s for s in dg["stmts"] if s["k"] == "call" and spec["funcs"][s["fn"]]["debug"]]
+        nd = [s for s in dg["stmts"] if s["k"] == "call" and not spec["funcs"][s["fn"]]["debug"] and not spec["funcs"][s["fn"]]["setup"]]
+        later = [(a, b) for a in dbg for b in nd if dg["stmts"].index(b) > dg["stmts"].index(a)]
+        if later:
+            a, b = d.pick(later)
+            b["args"] = list(b["args"]) + [["v", a["out"][0], []]]
+            scn = dict(program=spec, clients=[[dict(op="build", dags=spec["order"], expect_raise=["TawaziBaseException"])]], debug_on=debug_on)
+            return scn
+    ops: List[dict] = []
+    for _ in range(d.count(1, 3, 0.5)):
+        mode = d.weighted([("call", 4), ("exec", 5), ("setup", 1)])
+        if mode == "call":
+            ops.append(dict(op="call", inst="E:main", args=draw_args(d, dg)))
+        elif mode == "setup":
+            ops.append(dict(op="setup", inst="E:main"))
+        else:
+            j = len(ops)
+            sel = draw_selection(d, spec, "main", p_R=0.3, p_X=0.3, p_T=0.7)
+            ops.append(dict(op="executor", inst="E:main", sel=sel, ex=f"e{j}"))
+            ops.append(dict(op="exrun", ex=f"e{j}", args=draw_args(d, dg)))
+    return base_scn(spec, ops, debug_on=debug_on)
+
+
+def g_c11(d: Draw) -> dict:
+    spec = gen.gen_program(d, P_C11)
+    dg = spec["dags"]["main"]
+    if d.bool(0.07):
+        # build-time rejection: a setup node fed by a DAG parameter or by a non-setup node
+        st = [s for s in dg["stmts"] if s["k"] == "call" and spec["funcs"][s["fn"]]["setup"]]
+        if st:
+            b = d.pick(st)
+            idx = dg["stmts"].index(b)
+            plain = [s for s in dg["stmts"][:idx] if s["k"] == "call" and not spec["funcs"][s["fn"]]["setup"] and not spec["funcs"][s["fn"]]["debug"]]
+            how = d.pick(["param", "node"])
+            if how == "node" and plain:
+                b["args"] = list(b["args"]) + [["v", d.pick(plain)["out"][0], []]]
+                return dict(program=spec, clients=[[dict(op="build", dags=spec["order"], expect_raise=["TawaziBaseException"])]])
+            if dg["params"]:
+                b["args"] = list(b["args"]) + [["v", dg["params"][0][0], []]]
+                return dict(program=spec, clients=[[dict(op="build", dags=spec["order"], expect_raise=["TawaziUsageError", "TawaziBaseException"])]])
+    ops: List[dict] = []
+    cur = "E:main"
+    ncopy = 0
+    for _ in range(d.count(2, 8, 0.7)):
+        mode = d.weighted([("call", 4), ("exec", 4), ("exsetup", 2), ("setup", 2), ("setupsel", 2), ("copy", 1)])
+        j = len(ops)
+        if mode == "call":
+            ops.append(dict(op="call", inst=cur, args=draw_args(d, dg)))
+        elif mode == "exec":
+            sel = draw_selection(d, spec, "main", p_R=0.15, p_X=0.3, p_T=0.8)
+            ops.append(dict(op="executor", inst=cur, sel=sel, ex=f"e{j}"))
+            ops.append(dict(op="exrun", ex=f"e{j}", args=draw_args(d, dg)))
+        elif mode == "exsetup":
+            sel = draw_selection(d, spec, "main", p_R=0.0, p_X=0.3, p_T=0.8)
+            ops.append(dict(op="executor", inst=cur, sel=sel, ex=f"e{j}"))
+            ops.append(dict(op="exsetup", ex=f"e{j}"))
+        elif mode == "setup":
+            ops.append(dict(op="setup", inst=cur))
+        elif mode == "setupsel":
+            sel = draw_selection(d, spec, "main", p_R=0.0, p_X=0.25, p_T=1.0)
+            ops.append(dict(op="setup", inst=cur, sel=sel))
+        else:
+            ncopy += 1
+            new = f"K{ncopy}"
+            ops.append(dict(op="deepcopy", inst=cur, **{"as": new}))
+            if d.bool(0.6):
+                cur = new
+    return base_scn(spec, ops)
+
+
+reg(Prop("C12", g_c12, {"graph": "C12.a", "count_missing": "C12.b", "count_extra": "C12.b", "value": "C12.c", "noraise": "C12.d",
+                        "wrongexc": "C12.d", "raise": "C12.c"}, nontrivial="multi", n_sched=2, quick=1500))
+reg(Prop("C13", g_c13, {"count_extra": "C13.a", "count_missing": "C13.b", "debug_input_missing": "C13.c", "value": "C13.d",
+                        "args": "C13.d", "noraise": "C13.e", "wrongexc": "C13.e", "raise": "C13.d", "graph": "C13.a"},
+         nontrivial="multi", n_sched=2, quick=1500))
+reg(Prop("C11", g_c11, {"count_extra": "C11.a", "count_missing": "C11.c", "args": "C11.b", "value": "C11.b", "noraise": "C11.e",
+                        "wrongexc": "C11.e", "raise": "C11.b"}, nontrivial="multi", n_sched=2, quick=1500))
